@@ -67,6 +67,21 @@ def run(ctx):
     if rc != 0:
         raise Broken("C18 input generation failed (the set-up chain no longer runs)", out[-2000:])
     ins = json.load(open(gen))
+    # every transaction kind registered in the public router (incl. the external apps') must have hostile
+    # inputs: the list of registered kinds is regenerated from the source on every run
+    import re as _re
+    txt = open(os.path.join(common.VERIF, "coq", "gen", "Facts_TxKinds.v")).read()
+    registered = []
+    for d in ("public_kinds", "ext_public_kinds"):
+        m = _re.search(r"Definition %s : list string := \[(.*?)\]\." % d, txt, _re.S)
+        if m:
+            registered += _re.findall(r'"([A-Z0-9_]+)"', m.group(1))
+    generated = {i["kind"] for i in ins}
+    not_generated = sorted(k for k in set(registered) if not any(g == k or g.startswith(k + "_") for g in generated))
+    if len(registered) < 30:
+        raise Broken("the list of registered transaction kinds could not be read from Facts_TxKinds.v")
+    if not_generated:
+        raise Broken("registered transaction kinds for which no hostile input is generated: %s" % ", ".join(not_generated))
     cor = corpus_inputs()
     for c in cor:
         c["id"] = len(ins)
@@ -122,6 +137,7 @@ def run(ctx):
                 "multi-byte; booleans; field absent), whole-payload cases, envelope cases (fee gas/price/currency, type, memo, signature list/key/algorithm/bytes), all correctly signed where "
                 "the signer set allows; embedded Ethereum transactions (see assumptions); 116 malformed byte strings; corpus of earlier crash findings; each input goes through CheckTx and then a block (DeliverTx, EndBlock, Commit) in a worker "
                 "process, followed by a probe transaction; distinct = distinct byte strings" % len([k for k in kinds if k not in ("-", "corpus")]),
+        "registered_kinds": len(set(registered)), "registered_kinds_without_inputs": not_generated,
         "histories_run": hists, "histories_stopped": [nm for nm, _ in hbad],
         "input_class_histogram": hist, "survived": len(results), "crashes": len(crashes), "corpus_inputs": len(cor),
         "accepted_by_checktx": acc["check_accepted"], "executed_by_delivertx": acc["deliver_executed"],
